@@ -241,6 +241,28 @@ func lengthSweep(tr *Trace, keep bool, exec func(*Trace) *Outcome) *Outcome {
 	o := &Outcome{LevelIndep: true}
 	o.stat("length_sweeps", 1)
 	h := uint64(0)
+	if tr.Note == "" && tr.W.Data.Kind != "head_run" && tr.Index%2 == 0 {
+		// aim the window: start it shortly before the length at which the emitted
+		// size crosses the next multiple of 8 KiB (encoders hand their output over
+		// in buffer-sized pieces; the end of the data should meet that hand-over)
+		probe := tr.Clone()
+		probe.Sweep = false
+		if rec, _ := runW(probe.W, true, false); rec.Panic == "" && rec.CtorErr == nil && len(rec.Segs) > 0 {
+			e0, n0 := len(rec.Segs[0].Sink.Data), tr.W.Data.Len
+			if e0 > 64 && n0 > 64 {
+				need := 8192 - e0%8192 - tr.Stride/2*e0/n0
+				for need < 0 {
+					need += 8192
+				}
+				shift := need * n0 / e0
+				if shift < 200000 {
+					tr = tr.Clone()
+					tr.W.Data.Len += shift
+					o.stat("length_sweeps_aimed_at_8k_output_boundary", 1)
+				}
+			}
+		}
+	}
 	for d := 0; d < tr.Stride; d++ {
 		c := tr.Clone()
 		c.Sweep, c.Stride = false, 0
